@@ -1,6 +1,7 @@
 package main
 
 import (
+	"sync"
 	"fmt"
 	"math/big"
 	"sort"
@@ -40,6 +41,9 @@ func mkExpr(op string, w int, c *big.Int, name string, p1, p2 int, args ...*Expr
 		fmt.Fprintf(&sb, ",%d", a.id)
 	}
 	k := sb.String()
+	// obligations are discharged by parallel goroutines that still build (negated) terms: the DAG tables are shared
+	exprMu.Lock()
+	defer exprMu.Unlock()
 	if e, ok := exprTab[k]; ok {
 		return e
 	}
@@ -48,6 +52,8 @@ func mkExpr(op string, w int, c *big.Int, name string, p1, p2 int, args ...*Expr
 	exprList = append(exprList, e)
 	return e
 }
+
+var exprMu sync.Mutex
 
 func mask(w int) *big.Int { return new(big.Int).Sub(new(big.Int).Lsh(big.NewInt(1), uint(w)), big.NewInt(1)) }
 func bvConst(v *big.Int, w int) *Expr {
